@@ -141,7 +141,7 @@ func runSelftest(args []string) int {
 			if c.fire {
 				hit := false
 				for _, line := range strings.Split(s, "\n") {
-					if strings.HasPrefix(line, "  ["+c.rule+"]") && (c.key == "" || strings.Contains(line, c.key)) {
+					if strings.HasPrefix(line, "  ["+c.rule) && (c.key == "" || strings.Contains(line, c.key)) {
 						hit = true
 					}
 				}
